@@ -30,7 +30,7 @@ CONNS = [("plain", {}), ("shift", {"shift": 1}), ("shift2", {"shift": 2, "shift_
 
 def plan(tier, seed, scale):
     q = tier == "quick"
-    return {"n_cases": int((600 if q else 20000) * scale), "variants": 3, "profiles": ["sibling"],
+    return {"n_cases": int((600 if q else 160000) * scale), "variants": 3, "profiles": ["sibling"],
             "run_every": 1 if not q else 2, "timeout_s": 900 if q else 10800}
 
 
